@@ -96,9 +96,15 @@ package bungeecord
 //@ func (*bungeeCordMessageResponder).processPlayerCount
 //@   props C26
 //@   ghostpre
+//@   at-call ReadUTF as tgt
+//@   at-call EqualFold as all: assert called(tgt) && res(tgt, 1) == nil && streq(arg0, res(tgt, 0)) && streq(arg1, "ALL")
+//@   at-call PlayerCount#1 as cAll: assert called(all) && res(all)
+//@   at-call Server as srv: assert called(all) && !res(all) && streq(arg1, res(tgt, 0))
+//@   at-call Name as nm: assert [canonical-name-of-the-resolved-server] called(srv) && arg0 == res(srv)
+//@   at-call PlayerCount#2 as cSrv: assert called(srv) && arg0 == res(srv)
 //@   at-call WriteUTF#1 as f1: assert streq(arg1, "PlayerCount")
-//@   at-call WriteUTF#2 as f2: assert called(f1) && streq(arg1, name)
-//@   at-call WriteInt32 as f3: assert called(f2) && arg1 == int32(count)
+//@   at-call WriteUTF#2 as f2: assert [ALL-or-the-servers-own-name] called(f1) && ((res(all) && streq(arg1, "ALL")) || (!res(all) && called(nm) && streq(arg1, res(nm))))
+//@   at-call WriteInt32 as f3: assert [the-matching-count] called(f2) && ((res(all) && called(cAll) && arg1 == int32(res(cAll))) || (!res(all) && called(cSrv) && arg1 == int32(res(cSrv))))
 //@   at-call sendServerResponse as send: assert called(f3)
 
 // ForwardToPlayer must act on the NAMED player: the looked-up player has to be used by the callback.
